@@ -19,12 +19,34 @@ inductive Vis where
   | default | hidden | force
 deriving DecidableEq, Repr, Inhabited
 
+/-- The PURE builtins (a function of the forced argument values: strings, numbers, codecs), served by one
+    generic mechanism of the evaluator model (`pureSpec`, `std_pure` in RsjModel/Eval.lean). -/
+inductive PureB where
+  | substr | findSubstr | startsWith | endsWith | split | splitLimit | splitLimitR | strReplace
+  | stripChars | lstripChars | rstripChars | trim | asciiUpper | asciiLower | stringChars | codepoint | char
+  | equalsIgnoreCase
+  | floor | ceil | sqrt | isEven | isOdd | isInteger | isDecimal | modulo | exponent | mantissa
+  | pow | exp | log | log2 | log10 | sin | cos | tan | asin | acos | atan | atan2 | hypot | deg2rad | rad2deg
+  | parseInt | parseOctal | parseHex | base64 | base64Decode | base64DecodeBytes | encodeUTF8 | decodeUTF8
+  | escapeStringJson | escapeStringPython | escapeStringBash | escapeStringDollars | escapeStringXML
+  | format
+deriving DecidableEq, Repr, Inhabited
+
+/-- number of parameters of a pure builtin (`add_simple` of program/stdlib.rs); `(pureSpec p).arity` of
+    RsjModel/Eval.lean is this number (`pureSpec_arity`, RsjProofs/EvalPureTable.lean) -/
+def pureArity : PureB → Nat
+  | .substr | .splitLimit | .splitLimitR | .strReplace => 3
+  | .findSubstr | .startsWith | .endsWith | .split | .stripChars | .lstripChars | .rstripChars
+  | .equalsIgnoreCase | .modulo | .pow | .atan2 | .hypot | .format => 2
+  | _ => 1
+
 /-- The builtins the core model knows (printed as `std.<name>(args)`). -/
 inductive Builtin where
   | length | type_ | trace | objectHasEx | objectFieldsEx | map | makeArray
   | filter | foldl | foldr | flatMap | mapWithIndex | mapWithKey | filterMap | join | range
   | member | count | all | any | equals | compare | primitiveEquals | assertEqual | toString
   | sort | set
+  | pure (p : PureB)
 deriving DecidableEq, Repr, Inhabited
 
 mutual
@@ -137,6 +159,29 @@ def parseVis : String → Option Vis
   | "d" => some .default | "h" => some .hidden | "f" => some .force
   | _ => none
 
+def parsePureB : String → Option PureB
+  | "substr" => some .substr | "findSubstr" => some .findSubstr | "startsWith" => some .startsWith
+  | "endsWith" => some .endsWith | "split" => some .split | "splitLimit" => some .splitLimit
+  | "splitLimitR" => some .splitLimitR | "strReplace" => some .strReplace | "stripChars" => some .stripChars
+  | "lstripChars" => some .lstripChars | "rstripChars" => some .rstripChars | "trim" => some .trim
+  | "asciiUpper" => some .asciiUpper | "asciiLower" => some .asciiLower | "stringChars" => some .stringChars
+  | "codepoint" => some .codepoint | "char" => some .char | "equalsIgnoreCase" => some .equalsIgnoreCase
+  | "floor" => some .floor | "ceil" => some .ceil | "sqrt" => some .sqrt | "isEven" => some .isEven
+  | "isOdd" => some .isOdd | "isInteger" => some .isInteger | "isDecimal" => some .isDecimal
+  | "modulo" => some .modulo | "exponent" => some .exponent | "mantissa" => some .mantissa
+  | "pow" => some .pow | "exp" => some .exp | "log" => some .log | "log2" => some .log2
+  | "log10" => some .log10 | "sin" => some .sin | "cos" => some .cos | "tan" => some .tan
+  | "asin" => some .asin | "acos" => some .acos | "atan" => some .atan | "atan2" => some .atan2
+  | "hypot" => some .hypot | "deg2rad" => some .deg2rad | "rad2deg" => some .rad2deg
+  | "parseInt" => some .parseInt | "parseOctal" => some .parseOctal | "parseHex" => some .parseHex
+  | "base64" => some .base64 | "base64Decode" => some .base64Decode
+  | "base64DecodeBytes" => some .base64DecodeBytes | "encodeUTF8" => some .encodeUTF8
+  | "decodeUTF8" => some .decodeUTF8 | "escapeStringJson" => some .escapeStringJson
+  | "escapeStringPython" => some .escapeStringPython | "escapeStringBash" => some .escapeStringBash
+  | "escapeStringDollars" => some .escapeStringDollars | "escapeStringXML" => some .escapeStringXML
+  | "format" => some .format
+  | _ => none
+
 def parseBuiltin : String → Option Builtin
   | "length" => some .length | "type" => some .type_ | "trace" => some .trace
   | "objectHasEx" => some .objectHasEx | "objectFieldsEx" => some .objectFieldsEx
@@ -150,7 +195,7 @@ def parseBuiltin : String → Option Builtin
   | "primitiveEquals" => some .primitiveEquals | "assertEqual" => some .assertEqual
   | "toString" => some .toString
   | "sort" => some .sort | "set" => some .set
-  | _ => none
+  | s => (parsePureB s).map Builtin.pure
 
 def hexNat (s : String) : Option Nat :=
   s.toList.foldlM (fun acc c => do let d ← hexVal c; pure (acc * 16 + d)) 0
